@@ -13,6 +13,7 @@ package c17
 import (
 	"context"
 	"errors"
+	"runtime"
 	"sync/atomic"
 	"testing"
 
@@ -120,8 +121,22 @@ func init() {
 		}
 		var cancelled atomic.Int64
 		hammer(2, 300,
-			func(i int) { svc.SetBeaconBlockRoot(phase0.Slot(i%16), phase0.Root{byte(i), byte(i >> 8)}) },
-			func(i int) { svc.Aggregate(ctx, duty(phase0.Slot(i%16), i)) },
+			// the messenger jobs of other slots
+			func(i int) {
+				svc.SetBeaconBlockRoot(phase0.Slot(i%16), phase0.Root{byte(i), byte(i >> 8)})
+				runtime.Gosched()
+			},
+			// a slot's messenger job stores the root, its aggregation job takes it (and, two times out of three,
+			// fails somewhere after that); yielding between the operations makes the jobs of the goroutines
+			// alternate even on one processor, as jobs separated by seconds do
+			func(i int) {
+				slot := phase0.Slot(16 + i%16)
+				svc.SetBeaconBlockRoot(slot, phase0.Root{byte(i), byte(i >> 8), 1})
+				runtime.Gosched()
+				svc.Aggregate(ctx, duty(slot, i))
+				runtime.Gosched()
+			},
+			func(i int) { svc.Aggregate(ctx, duty(phase0.Slot(i%16), i)); runtime.Gosched() },
 			func(i int) {
 				// the aggregation job of a slot whose deadline passes while it runs
 				if i%8 != 0 {
